@@ -31,6 +31,7 @@ type ValidCase struct {
 	MM     []string            `json:"mm"`
 	ULL    []string            `json:"ull"`
 	ML     []map[string]string `json:"ml"`
+	MK     []map[string]string `json:"mk"`
 	C2     []string            `json:"c2"`
 	Valid  bool                `json:"valid"`
 	Pkg    string              `json:"pkg"`
@@ -118,6 +119,21 @@ func runValid(c *ValidCase, pkg *reg.Pkg, res *rep.Result) {
 	if len(steps) > 0 {
 		t.Ents[fp("v", "ml")] = steps
 	}
+	var msteps []string
+	for _, e := range c.MK {
+		st := "=" + e["k1"] + abs.KSep + e["k2"]
+		msteps = append(msteps, st)
+		if e["kl1"] != "" {
+			t.Leaves[fp("v", "mk", st, "k1")] = e["kl1"]
+		}
+		if e["kl2"] != "" {
+			t.Leaves[fp("v", "mk", st, "k2")] = e["kl2"]
+		}
+	}
+	sort.Strings(msteps)
+	if len(msteps) > 0 {
+		t.Ents[fp("v", "mk")] = msteps
+	}
 	for _, cs := range c.C2 {
 		t.Leaves[fp("v", cs+"1")] = "str:" + cs
 	}
@@ -138,6 +154,14 @@ func runValid(c *ValidCase, pkg *reg.Pkg, res *rep.Result) {
 		invalid := map[string]bool{"int8:-11": true, "int8:11": true, "uint16:0": true, "uint16:101": true, "uint16:999": true, "uint16:2001": true,
 			"dec:-1.51": true, "dec:10.26": true, "str:a": true, "str:abcdef": true, "str:aB": true, "str:ab1": true, "str:éé": true, "enum?:99": true,
 			"enum?:-1": true, "int32:10": true, "str:ABC": true, "bin:": true, "bin:0011223344": true}
+		for _, e := range c.MK {
+			if e["kl1"] != e["k1"] || e["kl2"] != e["k2"] {
+				fault = "multikey-mismatch"
+				if e["kl1"] == "" || e["kl2"] == "" {
+					fault = "multikey-leaf-unset"
+				}
+			}
+		}
 		for f, v := range fields {
 			if invalid[v] {
 				fault = "field:" + f + "=" + v
